@@ -10,6 +10,11 @@
     correlation (code's convention `(1/2π)^d ∫ ρ(‖r‖) e^{i⟨k,r⟩} dr`);
   * radial cdf / pdf / ppf consistency for every closed form the code offers (Gaussian, Exponential,
     d = 1, 2, 3): `cdf' = pdf`, `cdf 0 = 0`, `cdf → 1`, `∫₀^∞ pdf = 1`, `ppf ∘ cdf = id`, `cdf ∘ ppf = id`.
+  * in-place changes (§10): after any history of setter calls the transform object `_sft` is the one of the current
+    dimension and `hankel_kw`, the state equals that of a freshly constructed model, hence the numerical default
+    transforms in the current dimension and the Gaussian density is the Fourier pair in the current dimension;
+  * truncated power law models (§11): density and correlation combine the same rescaled lengths with the same
+    weights, so the density is the transform of the correlation whenever the single-scale pairs are.
   `erf` is *defined* as `2/√π ∫₀ˣ e^{-t²}` (`GSV.Lemmas.Spectral.erfR`).
 -/
 import GSV.RealInst
@@ -820,6 +825,197 @@ theorem rad_pdf_model_mass (d : ℕ) (hd : d = 2 ∨ d = 3) (ℓ : ℝ) (hℓ : 
 example (ℓ : ℝ) : Offers (gauCdf specialR 2 ℓ) (fun r => 1 - Real.exp (-(r * ℓ / 2) ^ 2)) ∧
     Offers (expCdf 2 ℓ) (fun r => 1 - 1 / √(1 + (r * ℓ) ^ 2)) :=
   ⟨offers_gaussian_d2 ℓ, offers_exponential_d2 ℓ⟩
+
+/-! ## 10. Spectral functions after in-place changes of the model
+
+`Settings` carries everything a spectral evaluation reads (dimension, lengths, shape, `hankel_kw`) together with the
+transform object `_sft` that `set_dim` and the `hankel_kw` setter build.  The property needs the transform to be the
+one of the CURRENT dimension and settings after any history of setter calls, i.e. that the state reached by a history
+is the state a constructor would produce from the resulting parameters. -/
+
+/-- the transform object is the one of the current dimension and settings -/
+def Coherent (s : Settings ℝ) : Prop := s.sft.ndim = s.dim ∧ s.sft.kw = s.kw
+
+theorem construct_coherent (dim : ℕ) (len rescale var nu : ℝ) (hk : Option (HankelUpd ℝ)) :
+    Coherent (construct dim len rescale var nu hk) := by
+  cases hk <;> exact ⟨rfl, rfl⟩
+
+theorem step_coherent (s : Settings ℝ) (h : Coherent s) (op : Op ℝ) : Coherent (step s op) := by
+  cases op with
+  | setDim d =>
+    by_cases hd : d < 1
+    · simpa [step, hd] using h
+    · simp [step, hd, Coherent]
+  | setLen x => exact h
+  | setRescale x => exact h
+  | setVar x => exact h
+  | setNu x => exact h
+  | setHankel u => cases u <;> exact ⟨rfl, rfl⟩
+
+theorem run_coherent (s : Settings ℝ) (h : Coherent s) (ops : List (Op ℝ)) : Coherent (run s ops) := by
+  unfold run
+  induction ops generalizing s with
+  | nil => exact h
+  | cons op ops ih => exact ih (step s op) (step_coherent s h op)
+
+/-- **after every history of setter calls the transform object belongs to the current dimension and the current
+    `hankel_kw`** -/
+theorem sft_coherent (dim : ℕ) (len rescale var nu : ℝ) (hk : Option (HankelUpd ℝ)) (ops : List (Op ℝ)) :
+    Coherent (run (construct dim len rescale var nu hk) ops) :=
+  run_coherent _ (construct_coherent dim len rescale var nu hk) ops
+
+/-- a dimension change is followed by the transform object (non-vacuity of `sft_coherent`: a 1-d model moved to 3-d
+    transforms in 3-d, with the settings given to the constructor) -/
+example : (run (construct (α := ℝ) 1 1 1 1 1 (some ⟨none, none, some 50, none, none⟩)) [Op.setDim 3]).sft.ndim = 3 ∧
+    (run (construct (α := ℝ) 1 1 1 1 1 (some ⟨none, none, some 50, none, none⟩)) [Op.setDim 3]).sft.kw.N = 50 := by
+  constructor <;> simp [run, step, construct, HankelKw.update, hankelDefault]
+
+private theorem update_full (kw kw' : HankelKw ℝ) : kw'.update kw.full = kw := by
+  cases kw; rfl
+
+/-- the stored rescale factor is an absolute value -/
+def RescaleAbs (s : Settings ℝ) : Prop := s.rescale = |s.rescale|
+
+theorem step_rescaleAbs (s : Settings ℝ) (h : RescaleAbs s) (op : Op ℝ) : RescaleAbs (step s op) := by
+  cases op with
+  | setDim d =>
+    by_cases hd : d < 1
+    · simpa [step, hd] using h
+    · simpa [step, hd, RescaleAbs] using h
+  | setLen x => exact h
+  | setRescale x => simp [step, RescaleAbs]
+  | setVar x => exact h
+  | setNu x => exact h
+  | setHankel u => cases u <;> exact h
+
+theorem run_rescaleAbs (s : Settings ℝ) (h : RescaleAbs s) (ops : List (Op ℝ)) : RescaleAbs (run s ops) := by
+  unfold run
+  induction ops generalizing s with
+  | nil => exact h
+  | cons op ops ih => exact ih (step s op) (step_rescaleAbs s h op)
+
+theorem construct_rescaleAbs (dim : ℕ) (len rescale var nu : ℝ) (hk : Option (HankelUpd ℝ)) :
+    RescaleAbs (construct dim len rescale var nu hk) := by
+  cases hk <;> simp [construct, RescaleAbs]
+
+/-- **history independence**: the state reached by constructing a model and changing it in place is exactly the state
+    of a model freshly constructed with the resulting parameters (dimension, lengths, variance, shape and the complete
+    `hankel_kw`) — so every spectral function, which reads nothing but this state, agrees with the fresh model. -/
+theorem history_independent (dim : ℕ) (len rescale var nu : ℝ) (hk : Option (HankelUpd ℝ)) (ops : List (Op ℝ)) :
+    let s := run (construct dim len rescale var nu hk) ops
+    s = construct s.dim s.len s.rescale s.var s.nu (some s.kw.full) := by
+  intro s
+  have hc : Coherent s := sft_coherent dim len rescale var nu hk ops
+  have hr : RescaleAbs s := run_rescaleAbs _ (construct_rescaleAbs dim len rescale var nu hk) ops
+  obtain ⟨h1, h2⟩ := hc
+  rcases s with ⟨d, l, r, v, n, kw, ⟨sd, skw⟩⟩
+  simp only [RescaleAbs] at h1 h2 hr
+  subst h1 h2
+  simp only [construct, fabs_real, update_full]
+  rw [← hr]
+
+/-- **numerical default after a history**: `CovModel.spectral_density` applies the transform of the CURRENT dimension
+    and CURRENT settings to the CURRENT correlation (`T ndim kw f k` = `SymmetricFourierTransform(ndim, **kw)
+    .transform(f, k)`, an uninterpreted parameter) -/
+theorem default_density_after_history (T : ℕ → HankelKw ℝ → (ℝ → ℝ) → ℝ → ℝ) (cor : ℝ → ℝ)
+    (dim : ℕ) (len rescale var nu : ℝ) (hk : Option (HankelUpd ℝ)) (ops : List (Op ℝ)) (k : ℝ) :
+    let s := run (construct dim len rescale var nu hk) ops
+    defaultDensity T cor s k = T s.dim s.kw (correlation cor (lenRescaled s.len s.rescale)) |k| := by
+  intro s
+  obtain ⟨h1, h2⟩ := sft_coherent dim len rescale var nu hk ops
+  simp only [defaultDensity, fabs_real]
+  rw [h1, h2]
+
+/-- hence, to the extent that the transform package computes the `d`-dimensional radial Fourier transform `F d`
+    (whatever its settings), the default density after any history is `F (current dim) (current correlation)` -/
+theorem default_density_is_transform_in_current_dim (T : ℕ → HankelKw ℝ → (ℝ → ℝ) → ℝ → ℝ)
+    (F : ℕ → (ℝ → ℝ) → ℝ → ℝ) (hT : ∀ d kw f k, T d kw f k = F d f k) (cor : ℝ → ℝ)
+    (dim : ℕ) (len rescale var nu : ℝ) (hk : Option (HankelUpd ℝ)) (ops : List (Op ℝ)) (k : ℝ) :
+    let s := run (construct dim len rescale var nu hk) ops
+    defaultDensity T cor s k = F s.dim (correlation cor (lenRescaled s.len s.rescale)) |k| := by
+  intro s
+  have h := default_density_after_history T cor dim len rescale var nu hk ops k
+  simp only at h
+  rw [h, hT]
+
+/-- the hypothesis of the previous theorem is satisfiable (the transform that ignores its settings) -/
+example : ∃ (T : ℕ → HankelKw ℝ → (ℝ → ℝ) → ℝ → ℝ) (F : ℕ → (ℝ → ℝ) → ℝ → ℝ), ∀ d kw f k, T d kw f k = F d f k :=
+  ⟨fun d _ f k => (d : ℝ) * f k, fun d f k => (d : ℝ) * f k, fun _ _ _ _ => rfl⟩
+
+/-- **Gaussian after a history**: whatever was changed in place, the density the object reports is the Fourier
+    transform, in the object's CURRENT dimension, of its CURRENT correlation -/
+theorem gaussian_density_after_history (dim : ℕ) (len rescale var nu : ℝ) (hk : Option (HankelUpd ℝ))
+    (ops : List (Op ℝ)) :
+    let s := run (construct dim len rescale var nu hk) ops
+    0 < lenRescaled s.len s.rescale →
+    ∀ k : EuclideanSpace ℝ (Fin s.dim),
+      ((1 / (2 * π) : ℝ) : ℂ) ^ s.dim *
+          ∫ v : EuclideanSpace ℝ (Fin s.dim), ((correlation gauCor (lenRescaled s.len s.rescale) ‖v‖ : ℝ) : ℂ) *
+            Complex.exp (Complex.I * ((inner ℝ k v : ℝ) : ℂ))
+        = ((gauDensityOf s ‖k‖ : ℝ) : ℂ) := by
+  intro s hℓ k
+  exact gaussian_density_is_fourier_euclidean s.dim _ hℓ k
+
+/-- the hypothesis is met by an ordinary history (1-d model, rescaled, moved to 3-d, length changed) -/
+example : (0:ℝ) < lenRescaled (run (construct (α := ℝ) 1 1 2 1 1 none) [Op.setDim 3, Op.setLen 5, Op.setRescale (-4)]).len
+    (run (construct (α := ℝ) 1 1 2 1 1 none) [Op.setDim 3, Op.setLen 5, Op.setRescale (-4)]).rescale := by
+  simp [run, step, construct, lenRescaled]
+
+/-! ## 11. Truncated power law models: the density combines the single-scale densities with the weights and the
+(rescaled) lengths of the correlation -/
+
+/-- over the reals `len_rescaled + len_low_rescaled` (what `spectral_density` hands to `tpl_*_spec_dens`) is
+    `len_up_rescaled` (what `correlation` uses) -/
+theorem tpl_up_length (len lenLow rescale : ℝ) :
+    lenRescaled len rescale + lenLowRescaled lenLow rescale = lenUpRescaled len lenLow rescale := by
+  simp only [lenRescaled, lenLowRescaled, lenUpRescaled]
+  rw [← add_div, add_comm]
+
+/-- the two weights differ, so the combination is a genuine affine combination (weights sum to one) -/
+theorem tpl_weights_ne (H len lenLow rescale : ℝ) (hH : 0 < H) (hlen : 0 < len) (hlow : 0 ≤ lenLow)
+    (hr : 0 < rescale) :
+    lenUpRescaled len lenLow rescale ^ (2 * H) - lenLowRescaled lenLow rescale ^ (2 * H) ≠ 0 := by
+  have h0 : 0 ≤ lenLowRescaled lenLow rescale := div_nonneg hlow hr.le
+  have hlt : lenLowRescaled lenLow rescale < lenUpRescaled len lenLow rescale := by
+    simp only [lenLowRescaled, lenUpRescaled]
+    exact div_lt_div_of_pos_right (by linarith) hr
+  have := Real.rpow_lt_rpow h0 hlt (by linarith : 0 < 2 * H)
+  linarith
+
+/-- **TPLGaussian / TPLExponential**: if `𝓕` is any linear transform (the `d`-dimensional Fourier transform) under
+    which every single-scale density is the transform of the single-scale correlation, `one L = 𝓕 (corOne L)`, then the
+    density the model reports is the transform of the correlation the model reports — because both combine the SAME
+    rescaled lengths `len_low/rescale` and `(len_low+len)/rescale` with the SAME weights. -/
+theorem tpl_density_is_transform (𝓕 : (ℝ → ℝ) →ₗ[ℝ] (ℝ → ℝ)) (one corOne : ℝ → ℝ → ℝ)
+    (hone : ∀ L, one L = 𝓕 (corOne L)) (H len lenLow rescale : ℝ) :
+    (fun k => tplDensity one H len lenLow rescale k) = 𝓕 (fun r => tplCorrelation corOne H len lenLow rescale r) := by
+  unfold tplDensity tplMix tplCorrelation
+  by_cases hc : isclose0 (lenLowRescaled lenLow rescale) = true
+  · simp only [hc, if_true]
+    exact hone _
+  · simp only [hc]
+    simp only [rpow_real, tpl_up_length, Bool.false_eq_true, if_false]
+    set up := lenUpRescaled len lenLow rescale
+    set low := lenLowRescaled lenLow rescale
+    set a := up ^ (((2:ℕ):ℝ) * H)
+    set b := low ^ (((2:ℕ):ℝ) * H)
+    have e : (fun r => (a * corOne up r - b * corOne low r) / (a - b))
+        = (a - b)⁻¹ • (a • corOne up - b • corOne low) := by
+      funext r
+      simp only [Pi.smul_apply, Pi.sub_apply, smul_eq_mul]
+      rw [div_eq_inv_mul]
+    rw [e, map_smul, map_sub, map_smul, map_smul, ← hone, ← hone]
+    funext k
+    simp only [Pi.smul_apply, Pi.sub_apply, smul_eq_mul]
+    rw [div_eq_inv_mul]
+
+/-- the hypotheses of `tpl_density_is_transform` are satisfiable by a non-trivial object (identity transform), and
+    the truncated, rescaled case is not the degenerate branch -/
+example : (∃ (𝓕 : (ℝ → ℝ) →ₗ[ℝ] (ℝ → ℝ)) (one corOne : ℝ → ℝ → ℝ), ∀ L, one L = 𝓕 (corOne L)) ∧
+    isclose0 (lenLowRescaled (1:ℝ) 2) = false :=
+  ⟨⟨LinearMap.id, fun L r => L * r, fun L r => L * r, fun _ => rfl⟩, by
+    simp only [isclose0, lenLowRescaled, fabs_real]
+    norm_num⟩
 
 
 end GSV.Props.C04
